@@ -21,8 +21,14 @@ claim("C03",
       "model checking of the implementation is the right level: the interesting inputs are rare points of a 64-bit space.",
       TRUST, "symbolic execution of vhdx.py + z3 equivalence against a specification oracle", "4.3")
 
+claim("C05",
+      "For every enumerated block size and every symbolic header (offBlocks, offData, DiskSize, BlocksInHDD), block map "
+      "and 512-aligned request of up to N blocks, the real VDI.__init__ + VDI._read return exactly the bytes the "
+      "VDICore.h oracle names, decided per path by z3; witness images are replayed through the unpatched VDI class.",
+      TRUST, "symbolic execution of vdi.py + z3 equivalence against a specification oracle", "4.5")
+
 PENDING = "check not built yet in this round (planned: see DESIGN.md section 4)"
-for _p in ("C01", "C02", "C04", "C05", "C06", "C07", "C08", "C09", "C10", "C11", "C12", "C13", "C14", "C15", "C17", "C20"):
+for _p in ("C01", "C02", "C04", "C06", "C07", "C08", "C09", "C10", "C11", "C12", "C13", "C14", "C15", "C17", "C20"):
     NOT_APPLICABLE[_p] = PENDING
 NOT_APPLICABLE["C16"] = ("the property's content (cstruct writers, AES-GCM, PBKDF2) sits behind C boundaries that would have "
                          "to be stubbed; nothing of the repository's own arithmetic would remain to be decided (DESIGN 5)")
